@@ -98,6 +98,18 @@ theorem c11_missing (inp : ArgInput) (files : String → TargetFiles) (t c : Str
     | cons a as ih => simpa using ih
   rw [hz]; simp
 
+/-- **C11 (argmap names and files).** Distinct argmap names stand for distinct files - whatever
+characters the names contain, dots included - so describing a target's argmap directory by
+name ↦ content (`TargetFiles`) loses nothing: no two requested names can read one file, and a name
+never reads the file of another name. -/
+theorem c11_file_inj (a b : String) (h : argmapFile a = argmapFile b) : a = b := by
+  unfold argmapFile at h
+  have := congrArg String.toList h
+  simp only [String.toList_append] at this
+  exact String.ext (List.append_cancel_right this)
+
+example : argmapFile "dev.linux" = "dev.linux.json" ∧ argmapFile "dev.linux" ≠ argmapFile "dev" := by decide
+
 /-- **C11 (resolution).** A non-empty definition path wins; otherwise the executable is a file of
 the commands directory whose stem equals the command name, and there is none iff no such file. -/
 theorem c11_resolve_def (p : String) (hp : p ≠ "") (dir : List (String × String)) (c : String) :
